@@ -701,7 +701,9 @@ class ReactionSystem(object):
         if cstr_fr_fc:
             fr_key, fc = cstr_fr_fc
             for sk, fck in fc.items():
-                result[sk] += variables[fr_key] * (variables[fck] - variables[sk])
+                result[sk] = result.get(sk, 0) + variables[fr_key] * (
+                    variables[fck] - variables[sk]
+                )
         return result
 
     def _stoichs(self, attr, keys=None):
